@@ -72,7 +72,8 @@ func (d *Document) GetVariableBooleanValue(name string) (value, valid bool) {
 	for i := range d.VariableDefinitions {
 		definitionName := d.VariableDefinitionNameString(i)
 		if definitionName == name {
-			if d.VariableDefinitions[i].DefaultValue.IsDefined {
+			// the operation is not validated yet: a default that is not a boolean literal is not a boolean value
+			if d.VariableDefinitions[i].DefaultValue.IsDefined && d.VariableDefinitions[i].DefaultValue.Value.Kind == ValueKindBoolean {
 				return bool(d.BooleanValue(d.VariableDefinitions[i].DefaultValue.Value.Ref)), true
 			}
 		}
